@@ -113,6 +113,8 @@ public:
         viol_prefix = tmpl;
     }
 
+    // deadline check usable inside long units (a dense graph with all its weightings): marks the run as capped
+    bool expired() { if (deadline_abs > 0 && now_s() > deadline_abs) { sh->capped.store(1); return true; } return false; }
     void count(int idx, uint64_t by = 1) { sh->counters[idx].fetch_add(by, std::memory_order_relaxed); }
     uint64_t counter(int idx) const { return sh->counters[idx].load(); }
 
